@@ -16,7 +16,7 @@ func genC05(r *Rng, tier string, emit func(string, Tok)) {
 	muxGenAll(r, tier, muxMix{
 		random: scale(tier, 120, 600), maxLen: scale(tier, 60, 400),
 		wrap: scale(tier, 6, 60), bigPMT: scale(tier, 25, 250), many: scale(tier, 80, 1000), readd: scale(tier, 60, 600), ood: scale(tier, 25, 250),
-		exhaustive: scale(tier, 3, 4),
+		exhaustive: scale(tier, 3, 4), sweep: 0xf20,
 	}, emit)
 }
 
